@@ -974,7 +974,7 @@ func loopHead(st ast.Stmt) ast.Expr {
 // from one hole to the next.
 func (p *Program) rulePolyHoles(c *Check) {
 	kernels := map[*types.Func]bool{}
-	for _, n := range []string{"ringContainsPoint", "ringContainsLine", "ringIntersectsLine", "ringContainsRing", "ringIntersectsRing", "ringContainsSegment", "ringIntersectsSegment"} {
+	for _, n := range []string{"ringContainsPoint", "ringIntersectsLine", "ringContainsRing", "ringIntersectsRing", "ringContainsSegment", "ringIntersectsSegment"} { // ringContainsLine is a forwarder to ringContainsRing and is entered
 		if f := p.Func("geometry", n); f != nil {
 			kernels[f] = true
 		}
@@ -995,13 +995,28 @@ func (p *Program) rulePolyHoles(c *Check) {
 		return false, false
 	}
 	more := func(a *e8assign, n *e8names, slice string, j int) bool {
-		for k := 0; k <= j; k++ {
-			v, ok := find(a, n, "more(", slice, fmt.Sprintf(")#%d", k))
-			if !ok || !v {
-				return false
+		if _, ranged := find(a, n, "more(", slice, ")#0"); ranged {
+			for k := 0; k <= j; k++ {
+				v, ok := find(a, n, "more(", slice, fmt.Sprintf(")#%d", k))
+				if !ok || !v {
+					return false
+				}
+			}
+			return true
+		}
+		// a counted loop: hole j exists iff len(slice) > j, read off the ranks of len(slice) and the integer atoms
+		ln := "len(" + slice + ")"
+		if !a.has(ln) {
+			return false
+		}
+		for _, s := range n.scalars {
+			if v, ok := numericAtom(s); ok && a.has(s) {
+				if v >= float64(j) && a.R(ln) > a.R(s) {
+					return true
+				}
 			}
 		}
-		return true
+		return false
 	}
 	type spec struct {
 		method string
@@ -1010,10 +1025,12 @@ func (p *Program) rulePolyHoles(c *Check) {
 	}
 	holeFree := func(kernel string, slice string) func(a *e8assign, n *e8names) bool {
 		return func(a *e8assign, n *e8names) bool {
-			for j := 0; j < 2; j++ {
+			for j := 0; j < 8; j++ {
 				if more(a, n, slice, j) {
-					if v, ok := find(a, n, kernel+"(", fmt.Sprintf("%s[#%d]", slice, j)); ok && v {
-						return false
+					for _, idx := range []string{fmt.Sprintf("%s[#%d]", slice, j), fmt.Sprintf("%s[%d]", slice, j)} {
+						if v, ok := find(a, n, kernel+"(", idx); ok && v {
+							return false
+						}
 					}
 				}
 			}
@@ -1029,7 +1046,7 @@ func (p *Program) rulePolyHoles(c *Check) {
 			return e && holeFree("ringContainsPoint", "recv.Holes")(a, n), ""
 		}},
 		{"ContainsLine", "the exterior contains the line and no hole intersects it", func(a *e8assign, n *e8names) (bool, string) {
-			e, ok := find(a, n, "ringContainsLine(", "Exterior")
+			e, ok := find(a, n, "ringContainsRing(", "Exterior")
 			if !ok {
 				return false, "the exterior is never tested"
 			}
@@ -1040,7 +1057,7 @@ func (p *Program) rulePolyHoles(c *Check) {
 			if !ok {
 				return false, "the exterior is never tested"
 			}
-			return e && holeFree("ringContainsLine", "recv.Holes")(a, n), ""
+			return e && holeFree("ringContainsRing", "recv.Holes")(a, n), ""
 		}},
 		{"IntersectsPoly", "the exteriors intersect and no hole of either polygon contains the other's exterior", func(a *e8assign, n *e8names) (bool, string) {
 			e, ok := find(a, n, "ringIntersectsRing(", "Exterior")
@@ -1057,19 +1074,28 @@ func (p *Program) rulePolyHoles(c *Check) {
 			if !e {
 				return false, ""
 			}
-			for j := 0; j < 2; j++ {
+			for j := 0; j < 8; j++ {
 				if !more(a, n, "recv.Holes", j) {
 					continue
 				}
-				hit, _ := find(a, n, "ringIntersectsRing(", fmt.Sprintf("recv.Holes[#%d]", j), "p0.Exterior")
+				hit := false
+				for _, hj := range []string{fmt.Sprintf("recv.Holes[#%d]", j), fmt.Sprintf("recv.Holes[%d]", j)} {
+					if v, ok := find(a, n, "ringIntersectsRing(", hj, "p0.Exterior"); ok && v {
+						hit = true
+					}
+				}
 				if !hit {
 					continue
 				}
 				covered := false
-				for k := 0; k < 2; k++ {
+				for k := 0; k < 8; k++ {
 					if more(a, n, "p0.Holes", k) {
-						if v, ok := find(a, n, "ringContainsRing(", fmt.Sprintf("p0.Holes[#%d]", k), fmt.Sprintf("recv.Holes[#%d]", j)); ok && v {
-							covered = true
+						for _, hk := range []string{fmt.Sprintf("p0.Holes[#%d]", k), fmt.Sprintf("p0.Holes[%d]", k)} {
+							for _, hj := range []string{fmt.Sprintf("recv.Holes[#%d]", j), fmt.Sprintf("recv.Holes[%d]", j)} {
+								if v, ok := find(a, n, "ringContainsRing(", hk+",", hj+","); ok && v {
+									covered = true
+								}
+							}
 						}
 					}
 				}
